@@ -644,8 +644,18 @@ pub fn run_random<C: KeyColl>(tr: &mut Trace, cfg: &RandCfg) {
             clock += rng.range(0, 2) as i32;
         }
         if rng.chance(1, 45) {
-            // a long pause of the caller: everything stored so far expires at once
+            // a long pause of the caller: everything stored so far (but the never-expiring entries)
+            // expires at once; the next call is a key-driven query bounded above every key, so its
+            // search has to remove the whole chain of expired roots
             clock += 3 * cfg.tspan + 1;
+            let t = clock;
+            if rng.chance(1, 2) {
+                s.apply(&KOp::Le { t, p: cfg.keys + 1 }, 0);
+            } else {
+                s.apply(&KOp::Lt { t, p: cfg.keys + 1 }, 0);
+            }
+            s.apply(&KOp::Get { t, k: rng.range(1, cfg.keys as i64) as i32 }, 0);
+            continue;
         }
         let t = clock;
         let k = rng.range(0, cfg.keys as i64 + 1) as i32;
